@@ -318,6 +318,9 @@ class XMLReader(object):
             root = ET.XML(string, self.parser)
         except ET.XMLSyntaxError as exc:
             raise ParserException(exc.msg)
+        except ValueError as exc:
+            # lxml refuses e.g. strings with an encoding declaration or NULL bytes.
+            raise ParserException(str(exc))
 
         self._handle_version(root)
         return self.parse_element(root)
